@@ -629,4 +629,57 @@ def r18_10(ctx):
     return out
 
 
-RULES = [r18_1, r18_2, r18_3, r18_4, r18_5, r18_6, r18_7, r18_8, r18_9, r18_10]
+def r18_11(ctx):
+    """S: nothing in the on-curve test (PlanarCurve.__contains__ and everything it calls) snaps a parameter or a distance
+    to a grid coarser than 1e-9: the test accepts a point within 1e-6 of the curve, and a Newton parameter rounded to a
+    denominator of at most n moves the foot point by up to |C'| / n."""
+    from verifkit import pat
+    out = Outcome("R18.11", "the projection behind `point in segment` never quantises its parameter or distance (no "
+                            "limit_denominator / round coarser than 1e-9 in the callee closure of PlanarCurve.__contains__)",
+                  floor=5)
+    root = ctx.fn("curve.PlanarCurve.__contains__")
+    seen, todo = set(), [root.qname]
+    while todo:
+        q = todo.pop()
+        if q in seen or q not in ctx.model.funcs:
+            continue
+        seen.add(q)
+        todo += list(ctx.graph.callees(q))
+    FINEST = 10 ** 9
+    for q in sorted(seen):
+        fn = ctx.model.funcs[q]
+        mconsts = pat.module_consts(ctx.model.modules.get(fn.mod))
+        found = []
+        for n in ast.walk(fn.node):
+            if not isinstance(n, ast.Call):
+                continue
+            f = n.func
+            name = f.attr if isinstance(f, ast.Attribute) else f.id if isinstance(f, ast.Name) else None
+            if name == "limit_denominator":
+                a = n.args[0] if n.args else next((k.value for k in n.keywords if k.arg == "max_denominator"), None)
+                v = 10 ** 6 if a is None else pat.const_value(a)         # the default of the Fraction API is 10**6
+                if v is None and isinstance(a, ast.Name):
+                    v = mconsts.get(a.id)
+                found.append((n, "limit_denominator", v))
+            elif name in ("round", "around", "round_") and (isinstance(f, ast.Name) or U(f.value) in ("np", "numpy")):
+                a = n.args[1] if len(n.args) > 1 else next((k.value for k in n.keywords if k.arg in ("ndigits", "decimals")), None)
+                k = 0 if a is None else pat.const_value(a)
+                found.append((n, name, None if k is None else 10 ** k))
+            elif name in ("floor", "ceil", "trunc", "rint") and isinstance(f, ast.Attribute) and U(f.value) in ("math", "np", "numpy"):
+                found.append((n, name, 1))
+        if not found:
+            out.ok(q, "no quantisation", where=fn.where(), nontrivial=q.startswith("curve.Projection") or q == root.qname)
+            continue
+        for n, what, res in found:
+            if res is None:
+                out.undecided(q, f"resolution of `{U(n)[:50]}` is not a constant", where=fn.where(n))
+            elif res < FINEST:
+                out.bad(q, f"a value of the on-curve test is snapped to a grid of 1/{res} by `{what}`", where=fn.where(n),
+                        detail=f"`{U(n)[:60]}`: a point of the curve whose parameter is not on that grid is projected next to "
+                               f"itself and reported as not on the curve")
+            else:
+                out.ok(q, f"`{what}` at resolution 1/{res} (not coarser than the stored coordinates)", where=fn.where(n))
+    return out
+
+
+RULES = [r18_1, r18_2, r18_3, r18_4, r18_5, r18_6, r18_7, r18_8, r18_9, r18_10, r18_11]
